@@ -15,9 +15,12 @@ range carry explicit fuel.
 Addresses.  `index`/`cursor` values are relative to the data block; `lookup_in_data_slice_optional`
 slices the *whole heap* (`&self.data()[start..end]`), so its `start`/`end` are heap-absolute.
 `clone_index_stack` passes absolute bounds; `optimize_data_block_and_retain` passes
-`index_list_start` = a *relative* cursor as `start` and an absolute `index_list_end` — the model keeps
-that (see `optimize`): the searched slice then begins before the index list and covers data cells,
-including `CloneIndexMap` cells left behind by an earlier `clone_data`.
+`lookup_start = data_block.start + index_list_start` and the absolute `index_list_end` (since the fix
+commit "optimize looks mappings up from the heap index of the index list"; before it the relative
+`index_list_start` was passed and stale `CloneIndexMap` cells of an earlier `clone_data` were searched too).
+After cloning, `optimize` walks the input-value chain and re-points the `value` link of retained
+`Value`/`ValueRoot` cells that refer above the retained prefix (fix commit "optimize re-points input-value
+cells of the retained prefix that were updated in place"): `repointLoop`.
 Modelling assumption (checked by the harness on every case: it reports any `CloneIndexMap` cell outside
 the data block): the instruction, jump, symbol and expression-symbol blocks contain no `CloneIndexMap`
 cell, so heap positions below `data_block.start` never match a lookup.
@@ -336,8 +339,42 @@ def slide : Array Cell → Nat → Nat → Nat → Array Cell
   | cells, _, _, 0 => cells
   | cells, dst, src, n + 1 => slide (cells.setIfInBounds dst (cells.getD src .empty)) (dst + 1) (src + 1) n
 
+/-- one body of the re-pointing `while let Some(index) = next_value` loop: `none` = `break` on a cell that
+is not a `Value`/`ValueRoot`, `some previous` = continue with `next_value = previous` -/
+def repointStep (ls le : Nat) (s : Store) (index : Nat) : Outcome (Store × Option (Option Nat)) := do
+  let c ← s.get index
+  match c with
+  | .value previous value =>
+    if index < s.retention ∧ value ≥ s.retention then do
+      let mapped ← lookup s ls le value
+      let s ← setCell s index (.value previous mapped)
+      pure (s, some (some previous))
+    else pure (s, some (some previous))
+  | .valueRoot value =>
+    if index < s.retention ∧ value ≥ s.retention then do
+      let mapped ← lookup s ls le value
+      let s ← setCell s index (.valueRoot mapped)
+      pure (s, some none)
+    else pure (s, some none)
+  | _ => pure (s, none)
+
+/-- the re-pointing loop with its `remaining` counter (`if remaining == 0 { break } remaining -= 1` after
+each body): at most `remaining + 1` bodies run -/
+def repointLoop (ls le : Nat) : Nat → Store → Option Nat → Outcome Store
+  | _, s, none => .ok s
+  | 0, s, some index => do
+    let (s, _) ← repointStep ls le s index
+    pure s
+  | remaining + 1, s, some index => do
+    let (s, next) ← repointStep ls le s index
+    match next with
+    | none => pure s
+    | some previous => repointLoop ls le remaining s previous
+
 /-- `optimize_data_block_and_retain(additional_data_retentions)` -/
-def optimize (s : Store) (roots : List Nat) : Outcome (Store × List Nat) := do
+def optimize (s : Store) (roots : List Nat) : Outcome (Store × List Nat) :=
+  -- fix commit "optimize returns an error for a data retention count beyond the existing data"
+  if s.retention > s.cursor then .err .data else do
   let currentDataEnd := s.start + s.cursor
   let retainedDataEnd := s.start + s.retention
   let originalRegister := s.currentRegister
@@ -345,6 +382,8 @@ def optimize (s : Store) (roots : List Nat) : Outcome (Store × List Nat) := do
   let originalFrame := s.currentFrame
   -- relative
   let indexListStart := s.cursor
+  -- absolute
+  let lookupStart := s.start + indexListStart
   let symCount := s.symtab.size
   let s ← indexSymbols s 0 symCount
   let s ← indexOpt s originalRegister
@@ -359,15 +398,15 @@ def optimize (s : Store) (roots : List Nat) : Outcome (Store × List Nat) := do
       let (s, _) ← cloneIndexStack s indexListStart offset
       pure s
     else pure s : Outcome Store)
-  -- NB: `index_list_start` (relative) is passed where a heap-absolute bound is expected
-  let s ← remapSymbols indexListStart indexListEnd s 0 symCount
-  let reg ← remapOpt s indexListStart indexListEnd originalRegister
+  let s ← repointLoop lookupStart indexListEnd (currentDataEnd - s.start) s originalValue
+  let s ← remapSymbols lookupStart indexListEnd s 0 symCount
+  let reg ← remapOpt s lookupStart indexListEnd originalRegister
   let s := (match reg with | some r => { s with currentRegister := some r } | none => s)
-  let val ← remapOpt s indexListStart indexListEnd originalValue
+  let val ← remapOpt s lookupStart indexListEnd originalValue
   let s := (match val with | some r => { s with currentValue := some r } | none => s)
-  let fr ← remapOpt s indexListStart indexListEnd originalFrame
+  let fr ← remapOpt s lookupStart indexListEnd originalFrame
   let s := (match fr with | some r => { s with currentFrame := some r } | none => s)
-  let mapped ← remapRoots s indexListStart indexListEnd roots
+  let mapped ← remapRoots s lookupStart indexListEnd roots
   let newDataEnd := s.start + s.cursor
   let n := newDataEnd - indexListEnd
   let moved := slide s.cells s.retention (indexListEnd - s.start) n
